@@ -1170,3 +1170,87 @@ def _domain_predicate_names(model, extra):
         if problems:
             return {"confirmed": True, "bounded": True, "problems": problems[:3]}
     return {"confirmed": False, "bounded": True, "bound": f"all request sequences of length 3 over {reqs}"}
+
+
+@mirror("valid_output_bounded")
+def _valid_output_bounded(model, extra):
+    """bounded stand-in for C04: for every corpus program and trait selection the result (a) can be added statement by
+    statement to a ProgramBuilder and grounds, (b) its printed text parses back to the same text, (c) both load paths
+    give the same number of answer sets"""
+    from clingo import Control
+    from clingo.ast import ProgramBuilder, parse_string
+
+    from native.corpus import CORPUS
+    from native.witnesses import ALL
+
+    from ngo.api import optimize
+    from ngo.utils.globals import auto_detect_input, auto_detect_output
+
+    n = 0
+    for trait, progs in CORPUS.items():
+        for text, factsets in progs:
+            prg = []
+            parse_string(text, prg.append)
+            for traits in ([trait] if trait != "none" else []), [t for t in ALL if t != "duplication"]:
+                n += 1
+                res = optimize(prg, auto_detect_input(prg), auto_detect_output(prg), **{t: (t in traits) for t in ALL})
+                out = "\n".join(map(str, res))
+                back = []
+                try:
+                    parse_string(out, back.append)
+                except RuntimeError as e:
+                    return {"confirmed": True, "bounded": True, "program": text, "traits": traits, "why": "printed result does not parse", "result": out[-600:], "error": repr(e)}
+                if [str(s) for s in back] != [str(s) for s in res] and [str(s) for s in back[1:]] != [str(s) for s in res] and [str(s) for s in back] != [str(s) for s in res[1:]]:
+                    diff = [(str(a), str(b)) for a, b in zip(back[-len(res):], res) if str(a) != str(b)][:2]
+                    if diff:
+                        return {"confirmed": True, "bounded": True, "program": text, "traits": traits, "why": "printed form is not a fixpoint of parse/print", "difference": diff}
+                counts = []
+                for mode in ("ast", "text"):
+                    ctl = Control(["0", "--warn=none"])
+                    try:
+                        if mode == "ast":
+                            with ProgramBuilder(ctl) as b:
+                                for s in res:
+                                    b.add(s)
+                        else:
+                            ctl.add("base", [], out)
+                        ctl.add("base", [], factsets[0])
+                        ctl.ground([("base", [])])
+                    except RuntimeError as e:
+                        if any(k.get("ungroundable") for k in ()):
+                            pass
+                        return {"confirmed": True, "bounded": True, "program": text, "traits": traits, "why": f"result does not load/ground through the {mode} path", "result": out[-600:], "error": repr(e)}
+                    k = [0]
+                    ctl.solve(on_model=lambda m, k=k: k.__setitem__(0, k[0] + 1))
+                    counts.append(k[0])
+                if counts[0] != counts[1]:
+                    return {"confirmed": True, "bounded": True, "program": text, "traits": traits, "why": "AST path and text path give different numbers of answer sets", "counts": counts}
+    return {"confirmed": False, "bounded": True, "bound": f"{n} (program, trait selection) pairs of native/corpus.py"}
+
+
+@mirror("lexical_site")
+def _lexical_site(model, extra):
+    """replay of a lexical finding: build the node with the offending constant name, print it, parse it back"""
+    import re as _re
+
+    from clingo.ast import parse_string
+
+    out = []
+    for site in extra.get("sites", []):
+        m_ = _re.search(r"(Variable|Function)\(\.\.\., '([^']*)'", site)
+        if not m_:
+            continue
+        kind, name = m_.group(1), m_.group(2)
+        node = A.Variable(LOC, name) if kind == "Variable" else A.Function(LOC, name, [A.SymbolicTerm(LOC, clingo.Number(1))], False)
+        text = f"p({node})."
+        back = []
+        try:
+            parse_string(text, back.append)
+            arg = back[-1].head.atom.symbol.arguments[0]
+            same = arg.ast_type == node.ast_type and str(arg) == str(node)
+        except RuntimeError as e:
+            same = False
+            arg = repr(e)
+        if not same:
+            out.append({"site": site, "printed": text, "read_back_as": str(getattr(arg, "ast_type", arg))})
+    return {"confirmed": bool(out), "sites": out[:3]}
